@@ -372,7 +372,8 @@ type Element struct {
 }
 
 func newElement(blob *share.Blob, pfbIndex, blobIndex, subtreeRootThreshold int) *Element {
-	numShares := share.SparseSharesNeeded(uint32(len(blob.Data())))
+	// the signer of a version 1 blob takes up payload bytes of the blob's first share
+	numShares := share.SparseSharesNeeded(uint32(len(blob.Data()) + len(blob.Signer())))
 	return &Element{
 		Blob:      blob,
 		PfbIndex:  pfbIndex,
